@@ -310,7 +310,7 @@ def run(ctx, cases=None):
         res.exhaustive = True
     else:
         res.rule = "replay"
-    from multiprocessing import Pool
+    from ..common import Pool
     with Pool(16) as pool:
         events = pool.map(make_event, cases, chunksize=50)
         sess_cases = [c for c in cases if c["cls"] == "expr" and 2 <= shapes.size(tuple_shape(c["shape"])) <= (5 if ctx.quick else 7)]
